@@ -6,6 +6,7 @@ aborts generation of that file and is reported by the caller as a broken tie.
 """
 import ast
 import os
+import re
 import sys
 
 sys.path.insert(0, os.path.dirname(__file__))
@@ -222,12 +223,32 @@ def gen_delta():
     return "\n".join(out)
 
 
+def gen_scan():
+    """module-level constants of Scanner.py"""
+    tree = parse("codelimit/common/Scanner.py")
+    node = next((n for n in tree.body if isinstance(n, ast.Assign) and isinstance(n.targets[0], ast.Name)
+                 and n.targets[0].id == "DEFAULT_EXCLUDES"), None)
+    if node is None or not isinstance(node.value, ast.List) or not all(
+            isinstance(e, ast.Constant) and isinstance(e.value, str) for e in node.value.elts):
+        raise Unsupported("DEFAULT_EXCLUDES is not a literal list of strings")
+    items = ";\n   ".join("[" + "; ".join(str(ord(c)) for c in e.value) + "]  (* " + e.value + " *)" for e in node.value.elts)
+    items = items.replace("*)", "*)")
+    vt = parse("codelimit/version.py")
+    vnode = next((n for n in vt.body if isinstance(n, ast.Assign) and n.targets[0].id == "version"), None)
+    if vnode is None or not isinstance(vnode.value, ast.Constant):
+        raise Unsupported("version is not a literal")
+    v = vnode.value.value
+    return (HEADER.format(src="Scanner.py, version.py") + "From Verif Require Import Base.\nOpen Scope Z_scope.\n\n"
+            "Definition default_excludes : list pystr :=\n  [" + re.sub(r"\]  \(\* (.*?) \*\);", r"];  (* \1 *)", items) + "].\n\n"
+            f"Definition tool_version : pystr := [{'; '.join(str(ord(c)) for c in v)}].   (* {v} *)\n")
+
+
 def gen_patterns():
     import capture
     return capture.gen_patterns()
 
 
-TARGETS = {"GenThresholds": gen_thresholds, "GenPatterns": gen_patterns, "GenPercent": gen_percent, "GenDelta": gen_delta}
+TARGETS = {"GenThresholds": gen_thresholds, "GenPatterns": gen_patterns, "GenPercent": gen_percent, "GenDelta": gen_delta, "GenScan": gen_scan}
 
 
 def main(names=None):
